@@ -255,6 +255,7 @@ def showSigned (x : BitVec 64) : String := toString x.toInt
 def step (line : String) : String :=
   let ts := (line.trimAscii.toString.splitOn " ").filter (· ≠ "")
   match ts with
+  | "http" :: _ => "-"      -- replay lines for the harness only
   | "h" :: ep :: rest =>
     match splitSemi rest with
     | [args, schemaT, bodyT] => hLine ep args schemaT bodyT
